@@ -15,6 +15,7 @@ import subprocess
 import types
 import uuid as _uuid
 
+import ro_calls as RO
 from common import BIN, LEAN, impl_error
 from props.c20 import FIELDS, Addr2, Addr4, Int, Str, cval, jv, uj
 from props.c20 import cps as _cps_raw
@@ -855,6 +856,9 @@ def apply(sut, oracle, sym, pairs, ctx):
         pairs.append((line, out))
         if oracle:
             oracle.rdac_after(addr, data, events, exc)
+    elif sym[0] == "ro":
+        ro_call(sut, oracle, sym, ctx)
+        return
     elif sym[0] == "setattr":
         _, addr, key, value = sym
         if oracle:
@@ -871,6 +875,176 @@ def apply(sut, oracle, sym, pairs, ctx):
     ctx.count(f"sym:{sym[0]}")
     if exc is not None:
         ctx.count(f"outcome:{type(exc).__name__}")
+
+
+# ------------------------------------------------------------------------------------------------
+# round 6: read-only calls interleaved into a history (harness/ro_calls.py).  A symbol ("ro", root, call) is one observer-style call
+# on the P2P handler, the RDAC handler, the shared storage or a library object reachable from them (the Repeater records): repr / str /
+# len / bool / == / hash / copy / reading every attribute, packet_is_* / command_get_type / get_redirect_packet, match_incoming /
+# match_attr / match_ip_incoming / match_uuid WITHOUT auto-create, all(), Repeater.attr(key) / repeater_target_address(), the log_*
+# helpers, and whatever get_* / is_* / has_* / debug a change adds.  `call` is an entry of the catalogue or a number (that entry of
+# the catalogue the live objects offer now; the recorded history holds the call it became).  It is no datagram: the model is not
+# told, nothing may be sent, and the deep picture of both handlers, the storage and every record must be what it was.
+RO_POOLS = {
+    "address": [P1, P2, P3, ("10.9.9.9", 50000), ("", 0)], "addr": [P1, P2, P3, ("10.9.9.9", 50000)],
+    "ip": [P1[0], P3[0], "10.9.9.9", ""], "uuid": [_uuid.UUID(int=0), _uuid.UUID(int=1), _uuid.UUID(int=77)],
+    "attr_name": ["address_in", "callsign", "dmr_id", "id", "address_out"], "match_value": [P1, "OK1ABC", 0, None, ("", 0)],
+    "key": ["p2p_is_registered", "tx_freq", "nope"], "value": [None], "patch": [{}],
+    "data": [b"P2P\x00\x01" + bytes(19), bytearray(b"P2P\x00\x07" + bytes(25)), bytes.fromhex("0a00000014") + bytes(11), b""], "target_port": [50001, 0],
+    "msg": ["status", "%s %d", ""], "exc": [None],
+}
+
+
+def ro_roots(sut):
+    return {"p2p": sut.p2p, "rdac": sut.rdac, "storage": sut.storage}
+
+
+def ro_call(sut, oracle, sym, ctx):
+    import random
+
+    _, root, spec = sym
+    roots = ro_roots(sut)
+    if isinstance(spec, int):
+        cat = RO.all_specs({root: roots[root]}, RO_POOLS, random.Random(spec))
+        spec = cat[spec % len(cat)]
+    spec = list(spec)
+    if oracle:
+        oracle.history.append(["ro", root, json.loads(json.dumps(spec))])
+    try:
+        obj = RO.resolve(spec[0], roots)
+    except Exception:  # noqa: that object does not exist in this state
+        ctx.count("read-only-call:no-such-object")
+        return
+    text = RO.spec_text(spec)
+    sut.log.clear()
+    s0 = RO.snapshot(roots, [sut.snmp_calls])
+    n0 = len(sut.storage)
+    answer, _ = RO.perform(obj, spec, other=sut.storage)
+    s1 = RO.snapshot(roots, [sut.snmp_calls])
+    ctx.count("read-only-call:" + (spec[2] if spec[1] == "proto" else "call:" + spec[2]))
+    ctx.count("read-only-call-answer:" + answer)
+    if not oracle:
+        return
+    if s0 != s1 or len(sut.storage) != n0:
+        oracle.fail("read-only-call", f"the read-only call {text} (answer: {answer}) changed the state of the handlers / the storage", expected="nothing changes",
+                    actual=RO.first_diff(s0, s1) or f"len {n0} -> {len(sut.storage)}")
+    if sut.log:
+        oracle.fail("read-only-call", f"the read-only call {text} (answer: {answer}) sent something / reported a completion", expected=[], actual=sut.events())
+
+
+def ro_interleave(rng, syms, density=0.2):
+    out, made = [], 0
+    for i, s in enumerate(syms):
+        out.append(s)
+        if rng.random() < density or (made == 0 and i >= len(syms) // 2):
+            for _ in range(rng.randrange(1, 3)):
+                out.append(("ro", rng.choice(["p2p", "rdac", "storage", "storage"]), rng.getrandbits(30)))
+                made += 1
+    return out
+
+
+def ro_run(syms, ports, ctx=None):
+    """one history in fresh handlers on a fresh storage: (pairs, final sweep, failures, history as recorded)"""
+    sh = Shadow(ctx) if ctx is not None else Shadow(_NoCount())
+    sut = Sut(*ports)
+    try:
+        local = [(f"reset {ports[0]} {ports[1]}", "ok")]
+        history = []
+        oracle = Oracle(sh, sut, history, ports)
+        for s in syms:
+            apply(sut, oracle, s, local, sh)
+        local.append(("dump", sut.dump()))
+        roots = ro_roots(sut)
+        sut.log.clear()
+        n0 = len(sut.storage)
+        final, specs, changed = RO.checked_sweep(roots, RO_POOLS, 5 + sum(1 for s in syms if s[0] != "ro"), lambda: [sut.snmp_calls])
+        if not changed and (sut.log or len(sut.storage) != n0):
+            changed = f"sent / reported {sut.events()}, len {n0} -> {len(sut.storage)}"
+        if changed:
+            # the sweep made every call of the catalogue: as explicit elements they are checked one by one
+            sh.failures.append({"kind": "read-only-call", "what": "the final look through every observer-style call changed the state of the handlers / the storage", "expected": "nothing changes", "actual": changed})
+            history += [["ro", sp[0][0], json.loads(json.dumps(sp))] for sp in specs]
+        return local, final, sh.failures, history
+    finally:
+        sut.close()
+
+
+class _NoCount:
+    def count(self, *a):
+        pass
+
+
+def ro_verdicts(plain, with_calls, ports, ctx=None, sweep=True):
+    pa, fa, _, _ = ro_run(plain, ports)
+    pb, fb, failures, hist = ro_run(with_calls, ports, ctx)
+    out = [(f["what"], f["expected"], f["actual"]) for f in failures if f["kind"] == "read-only-call" and (sweep or not f["what"].startswith("the final look"))]
+    a, b = [x[1] for x in pa], [x[1] for x in pb]
+    if a != b:
+        d = next((i for i, (x, y) in enumerate(zip(a, b)) if x != y), min(len(a), len(b)))
+        out.append((f"datagrams are answered differently when read-only calls are made in between (first difference at delivery {d}: {pa[d][0][:70] if d < len(pa) else 'end'})",
+                    a[d][:300] if d < len(a) else None, b[d][:300] if d < len(b) else None))
+    if fa != fb:
+        out.append(("after read-only calls were made in between, the final state / what the observers answer at the end differs from the run without them",
+                    "as without the calls", RO.first_diff(fa, fb)))
+    return out, pb, hist
+
+
+def run_read_only(ctx, nm, hv, pairs, flush):
+    import random
+
+    rng = random.Random(f"C18:ro:{ctx.seed}")
+    todo = [(list(seq), (50000, 50002)) for seq in CORPUS]
+    for i in range(100 if not ctx.thorough() else 800):
+        length = rng.choice([4, 8, 20, 40]) if i % 6 else 90
+        seq = [random_sym(rng, nm, PEERS, hv if i % 2 else None) for _ in range(length)]
+        if i % 3 == 0:
+            seq = [("rdac", rng.choice(PEERS), d, False) for d in drive_to(rng.choice(STEP_ORDER))] + seq
+        if i % 4 == 1:
+            seq = [("p2p", rng.choice(PEERS), p2p_command(0x10), False)] + seq
+        todo.append((seq, (50000, 50002) if i % 4 else (rng.randrange(1, 65536), rng.randrange(1, 65536))))
+    shrunk = 0
+    for i, (plain, ports) in enumerate(todo):
+        if len(ctx.failures) >= 200:
+            break
+        with_calls = ro_interleave(rng, plain)
+        verdicts, pb, hist = ro_verdicts(plain, with_calls, ports, ctx)
+        ctx.case(("read-only", i, len(with_calls)), sample={"class": "read-only calls interleaved", "datagrams": len(plain), "read_only_calls": len(with_calls) - len(plain)} if i == 1 else None)
+        ctx.count("read-only:histories")
+        ctx.count("read-only:calls", len(with_calls) - len(plain))
+        if not verdicts:
+            if not any("?" in line for line, _ in pb):
+                pairs.extend(pb)  # the model answers the history without the calls; the implementation answered it with them
+            continue
+        ctx.count("read-only:failing-histories")
+        if shrunk < 4:
+            shrunk += 1
+            ran = [tuple(s) if s[0] != "ro" else ("ro", h[1], h[2]) for s, h in zip(with_calls, hist)] + [("ro", h[1], h[2]) for h in hist[len(with_calls):]]
+
+            def test(cand):
+                return any(s[0] == "ro" for s in cand) and bool(ro_verdicts([s for s in cand if s[0] != "ro"], cand, ports, sweep=False)[0])
+
+            small = RO.ddmin(ran, test, max_runs=150)
+            again, _, hist2 = ro_verdicts([s for s in small if s[0] != "ro"], small, ports, sweep=False)
+            if again:
+                verdicts, hist = again, hist2
+                ctx.count("read-only:failing-history-shortened")
+        elif shrunk >= 24:
+            continue
+        else:
+            shrunk += 1
+        for what, exp, act in verdicts[:2]:
+            ctx.fail("read-only-call", {"history": hist, "ports": list(ports)}, what + f" [history of {len(hist)} elements]", expected=exp, actual=act)
+    flush("handshake.read-only")
+    sk = []
+    sut = Sut()
+    try:
+        RO.all_specs(ro_roots(sut), RO_POOLS, skipped=sk)
+    finally:
+        sut.close()
+    for what in sorted(set(sk)):
+        ctx.count("read-only:not-called:" + what[:110])
+    if RO.no_exclusions():
+        ctx.notes.append("VERIF_RO_NOEXCLUDE is set: the reviewed exclusions of harness/ro_calls.py are void in this run (review mode)")
 
 
 def run_history(ctx, syms, pairs, ports=(50000, 50002), prefix=()):
@@ -2088,6 +2262,7 @@ def _run(ctx, corr):
         "type and as repeater id) to both handlers, from a registered and an unknown peer and at 6 / 14 RDAC steps.  As RDAC "
         "identification fields: bodies whose strings / dmr_id are the record defaults and harvested literals, equal for two peers. "
         "12 % of the symbols of every second random history are drawn from these pools. "
+        " ROUND 6, READ-ONLY CALLS: observer-style calls found by introspection on the live objects (repr / str / len / bool / == / hash / copy / every attribute, debug(), get_* / is_* / has_* / match_* without auto-create, the log helpers, on every library object reachable) are interleaved into histories: the same history runs without and with them in fresh objects; each call must leave the deep picture of the objects, their class / module data and the stubs' counters unchanged, every answer, the final state and a final sweep through the whole catalogue (made, and itself checked, at the end of every such history) must be identical, and the model is driven with the history without the calls; reviewed exclusions (calls that advance by design) are listed in harness/ro_calls.py EXCLUDED. "
         "Distinct = distinct symbol sequence; non-trivial = at least one datagram dispatches"
     )
     ctx.trusted_base += [
@@ -2207,6 +2382,9 @@ def _run(ctx, corr):
     run_ambient(ctx, pairs)
     flush("handshake.ambient")
     mark("ambient")
+    # ---- round 6: read-only calls interleaved (a fixed share, own random stream)
+    run_read_only(ctx, nm, hv, pairs, flush)
+    mark("read-only")
     # ---- random mixed histories
     for i in range(ctx.budget(400, 8000)):
         length = ctx.rng.choice([5, 20, 60, 150]) if i % 5 else 150
@@ -2243,7 +2421,10 @@ def replay(obj):
         return 1
     syms = []
     for h in hist:
-        if h[0] == "setout":
+        if h[0] == "ro":
+            syms.append(("ro", h[1], h[2]))
+            print("read-only call in the history:", RO.spec_text(h[2]))
+        elif h[0] == "setout":
             syms.append(("setout", uaddr(h[1]), tuple(h[2]) if isinstance(h[2], list) else uj(h[2])))
         elif h[0] == "setattr":
             syms.append(("setattr", uaddr(h[1]), h[2], uj(h[3])))
